@@ -81,13 +81,28 @@ def avg_normalize(exprs, dep):
 
 
 def is_zero(expr) -> bool:
+    """exact zero test; rational functions are decided by cancel(); expressions with radicals
+    or function atoms get one bounded simplify pass"""
+    expr = sp.sympify(expr)
     if expr == 0:
         return True
     e = sp.cancel(sp.together(expr))
     if e == 0:
         return True
-    e = sp.simplify(e)
-    return e == 0
+    irrational = any(isinstance(p, sp.Pow) and not p.exp.is_Integer for p in e.atoms(sp.Pow)) or e.atoms(sp.Function)
+    if not irrational or sp.count_ops(e) > 400:
+        return False
+    return sp.simplify(e) == 0
+
+
+def short(expr, n=300) -> str:
+    """bounded-cost printable form of a residual"""
+    try:
+        e = sp.cancel(sp.together(expr)) if sp.count_ops(expr) < 2000 else expr
+    except Exception:
+        e = expr
+    t = str(e)
+    return t if len(t) <= n else t[:n] + "..."
 
 
 def compare(lhs, rhs, dep=()):
@@ -109,9 +124,9 @@ def compare(lhs, rhs, dep=()):
                 cr = _coef_of(r, syms, mon)
                 msgs.append(f"coefficient of {b or '1'}: found {cl}, required {cr}")
         except Exception:
-            msgs.append(f"residual {sp.simplify(diff)}")
+            msgs.append(f"residual {short(diff)}")
     else:
-        msgs.append(f"found {sp.simplify(l)}, required {sp.simplify(r)}")
+        msgs.append(f"found {short(l)}, required {short(r)}")
     return False, "; ".join(msgs[:6])
 
 
